@@ -1,0 +1,31 @@
+//go:build verif
+
+// Contracts for package helpers, checked by /verif (vcgo).  Comment-only; excluded from normal builds.
+
+package helpers
+
+//@ func Uint64IsNonzero
+//@   props C01 C02 C17
+//@   ensures result == ite(u == 0, 0, 1)
+//@
+//@ func Uint64IsZero
+//@   props C01 C02 C17
+//@   ensures result == ite(u == 0, 1, 0)
+//@
+//@ func Uint64Equal
+//@   props C01 C02 C17
+//@   ensures result == ite(a == b, 1, 0)
+//@
+//@ func FiatLimbsAreEqual
+//@   props C01 C02 C17
+//@   ensures result == ite(a[0] == b[0] && a[1] == b[1] && a[2] == b[2] && a[3] == b[3], 1, 0)
+//@
+//@ func BytesToSaturated
+//@   props C01 C02
+//@   ensures e4(result) == os2ip(src)
+//@
+//@ func PutSaturatedToBytes
+//@   props C01 C02
+//@   ensures os2ip(dst) == old(e4(src))
+//@   ensures len(result) == 32 && same(result, dst)
+//@   modifies dst
